@@ -602,11 +602,12 @@ def u_freeze(root):
                                                        z3.BoolVal([c_[0] for c_ in vw.post.ghost.get("node_calls", ()) if c_[1] == "unfreeze"] == list(L) and all(c_[0] in L and c_[1] in ("unfreeze", "update", "notify_parents") for c_ in vw.post.ghost.get("node_calls", ()))
                                                                   and all([c2[1] for c2 in vw.post.ghost.get("node_calls", ()) if c2[0] == n_][0] == "unfreeze" for n_ in L)))])
 
-            def init_post(e, st, me_, first=first):
-                e.write_field(st, me_, "_nexus", RecNexus())
-                e.write_field(st, me_, "_cost_function", Part("cost_function", {"is_chi2": VBool(z3.Bool("is_chi2")), "fast_math": VBool(z3.Bool("fast_math"))}))
-                return {"runtime": VNum(z3.Real("runtime")), "first_fit": VBool(z3.BoolVal(first))}
-            eng.verify(cls, "_post_fit_iteration", None, init_post, contract=c, tag=f"[{cls},first_fit={first}]")
+            for failed in (False, True):          # (after a minimisation that raised there is no run time: the nodes are unfrozen all the same)
+                def init_post(e, st, me_, first=first, failed=failed):
+                    e.write_field(st, me_, "_nexus", RecNexus())
+                    e.write_field(st, me_, "_cost_function", Part("cost_function", {"is_chi2": VBool(z3.Bool("is_chi2")), "fast_math": VBool(z3.Bool("fast_math"))}))
+                    return {"runtime": VNone() if failed else VNum(z3.Real("runtime")), "first_fit": VBool(z3.BoolVal(first))}
+                eng.verify(cls, "_post_fit_iteration", None, init_post, contract=c, tag=f"[{cls},first_fit={first}{',after a failed minimisation' if failed else ''}]")
     # (2) which nodes: decided by the configuration only (dynamic-error algorithm, model-relative sources, x uncertainties) - the same question gets the same answer before and after a minimisation
     for cls in ("XYFit", "IndexedFit", "HistFit"):
         merr, proj = list(class_table(eng, cls, "_MODEL_ERROR_NODE_NAMES")), (list(class_table(eng, cls, "_PROJECTED_NODE_NAMES")) if cls == "XYFit" else [])
@@ -647,13 +648,15 @@ def u_do_fit(root):
     inline(eng, "FitBase", "_uncertainties_are_uncorrelated", kind=None)
     inline(eng, "XYFit", "_uncertainties_are_uncorrelated", kind=None)
     for cls in ("XYFit", "IndexedFit"):
-        for mode in ("single", "second", "iterative"):
+        for mode in ("single", "second", "iterative", "first-minimisation-fails", "second-minimisation-fails"):
             for pointwise in (True, False):
+                if mode.endswith("fails") and pointwise:
+                    continue
                 mk(eng, "FitBase", "_pre_fit_iteration", result=lambda vw: (log(vw.post, "pre", show_bool(vw.args.get("first_fit", VBool(z3.BoolVal(False))))), VNone())[1])
                 mk(eng, "FitBase", "_post_fit_iteration", result=lambda vw: (log(vw.post, "post", show_bool(vw.args.get("first_fit", VBool(z3.BoolVal(False))))), VNone())[1])
                 mk(eng, cls, "_set_data_as_model_ref", result=lambda vw: (log(vw.post, "data_as_ref"), VNone())[1])
                 mk(eng, cls, "_iterative_fits_needed", result=lambda vw, mode=mode: VBool(z3.BoolVal(mode == "iterative")))
-                mk(eng, cls, "_second_fit_needed", result=lambda vw, mode=mode: VBool(z3.BoolVal(mode == "second")))
+                mk(eng, cls, "_second_fit_needed", result=lambda vw, mode=mode: VBool(z3.BoolVal(mode in ("second", "second-minimisation-fails"))))
                 mk(eng, "FitBase", "has_errors", "getter", result=lambda vw: VBool(z3.Bool("has_errors")))
                 mk(eng, "FitBase", "total_cov_mat", "getter", result=lambda vw: Val("total_cov_mat"))
                 if cls == "XYFit":
@@ -671,7 +674,7 @@ def u_do_fit(root):
                 c = Contract(cls, "do_fit")
 
                 def post(vw, mode=mode, pointwise=pointwise, cls=cls):
-                    if vw.flow == "raise":
+                    if vw.flow == "raise" and not mode.endswith("fails"):
                         return [("no exception", z3.BoolVal(False))]
                     ev = []
                     for x in fx(vw):
@@ -684,6 +687,10 @@ def u_do_fit(root):
                     bracket = lambda first, reset: ["pre:%s" % first, "do_fit", "post:%s" % first]
                     core_ = [e_ for e_ in ev if e_ not in ("formatters", "result_dict", "reset_minimizer")]          # (a reset of the minimizer between passes is allowed, not required)
                     resets_ok = all(ev[q_ - 1].startswith("pre:") for q_, e_ in enumerate(ev) if e_ == "reset_minimizer")       # ... but only between freeze and minimisation
+                    if mode.endswith("fails"):
+                        want = ["data_as_ref"] + bracket(True, False) + (bracket(False, True) if mode.startswith("second") else [])
+                        return [("the exception of the minimiser leaves do_fit", z3.BoolVal(vw.flow == "raise")),
+                                ("... after the bracket it was raised in has been closed: freeze (before), the failing minimisation, unfreeze (after) with the SAME first_fit flag - no node stays frozen", z3.BoolVal(core_ == want and resets_ok))]
                     ok_seq = core_[:4] == ["data_as_ref"] + bracket(True, False)
                     rest = core_[4:]
                     if mode == "single":
@@ -706,9 +713,14 @@ def u_do_fit(root):
                     return out
                 c.ensures.append(post)
 
-                def init(e, st, me_, pointwise=pointwise):
+                def init(e, st, me_, pointwise=pointwise, mode=mode):
+                    def minimise(e_, st_, a, kw, mode=mode):
+                        done = len([x for x in st_.ghost.get("fx", ()) if x[0] == "call" and x[1] == "fitter" and x[2] == "do_fit"])          # (this call is already logged)
+                        if (mode == "first-minimisation-fails" and done == 1) or (mode == "second-minimisation-fails" and done == 2):
+                            raise PyRaise("RuntimeError")
+                        return VNum(z3.FreshReal("runtime"))
                     e.write_field(st, me_, "_nexus", RecNexus())
-                    e.write_field(st, me_, "_fitter", Part("fitter", {"do_fit": Fn(lambda e_, st_, a, kw: VNum(z3.FreshReal("runtime")))}))
+                    e.write_field(st, me_, "_fitter", Part("fitter", {"do_fit": Fn(minimise)}))
                     e.write_field(st, me_, "_cost_function", Part("cost_function", {"name": VStr("chi2"), "needs_errors": VBool(z3.Bool("needs_errors"))}))
                     e.write_field(st, me_, "_cost_function_pointwise", Part("pointwise", {"name": VStr("chi2_pointwise")}) if pointwise else VNone())
                     e.write_field(st, me_, "_fit_param_names_bad_default", VPySet(frozenset(["a"])))
@@ -738,7 +750,8 @@ def u_do_fit_proof(root):
         pre = mk(eng, "FitBase", "_pre_fit_iteration", modifies=[("#bracket", "int", "")])
         pre.ensures.append(lambda vw: [Bk(vw, vw.post) == z3.If(Bk(vw, vw.pre) == 0, z3.If(first_of(vw), z3.IntVal(1), z3.IntVal(3)), z3.IntVal(-1))])
         post_ = mk(eng, "FitBase", "_post_fit_iteration", modifies=[("#bracket", "int", "")])
-        post_.ensures.append(lambda vw: [Bk(vw, vw.post) == z3.If(Bk(vw, vw.pre) == z3.If(first_of(vw), z3.IntVal(2), z3.IntVal(4)), z3.IntVal(0), z3.IntVal(-1))])
+        # unfreeze closes the bracket opened with the same flag - after the minimisation (2 / 4) or after a minimisation that FAILED inside it (still 1 / 3)
+        post_.ensures.append(lambda vw: [Bk(vw, vw.post) == z3.If(z3.Or(Bk(vw, vw.pre) == z3.If(first_of(vw), z3.IntVal(2), z3.IntVal(4)), Bk(vw, vw.pre) == z3.If(first_of(vw), z3.IntVal(1), z3.IntVal(3))), z3.IntVal(0), z3.IntVal(-1))])
         mk(eng, cls, "_set_data_as_model_ref", result=lambda vw: VNone())
         mk(eng, cls, "_iterative_fits_needed", result=lambda vw: VBool(z3.Bool("iterative_fits_needed")))
         mk(eng, cls, "_second_fit_needed", result=lambda vw: VBool(z3.Bool("second_fit_needed")))
@@ -758,7 +771,7 @@ def u_do_fit_proof(root):
 
         def post(vw):
             if vw.flow == "raise":
-                return [("no exception", z3.BoolVal(False))]
+                return [("a minimisation that fails (all parameters fixed, an exception of the model function, ...) leaves nothing frozen: the bracket it failed in is closed before the exception leaves do_fit", Bk(vw, vw.post) == 0)]
             return [("for ANY number of refits: every freeze was followed by exactly one minimisation and then by the matching unfreeze (same first_fit flag); nothing is left frozen", Bk(vw, vw.post) == 0),
                     ("at least one minimisation ran", vw.f(vw.post, vw.self, "#fits").e >= 1),
                     ("results loaded from a file no longer shadow the live ones", z3.BoolVal(isinstance(vw.f(vw.post, vw.self, "_loaded_result_dict"), VNone)))]
@@ -766,6 +779,9 @@ def u_do_fit_proof(root):
 
         def init(e, st, me_):
             def minimise(e_, st_, a, kw):
+                n_ = str(z3.simplify(e_.read_field(st_, me_, "#fits").e))          # (which minimisation this is: a stable name for the case split, also when the statement is re-executed)
+                if e_.decide(st_, ("minimiser-fails", n_), z3.Bool("minimisation_fails@" + n_)):
+                    raise PyRaise("RuntimeError")          # the state stays inside the bracket (1 / 3)
                 b_ = e_.read_field(st_, me_, "#bracket").e
                 e_.write_field(st_, me_, "#bracket", VNum(z3.If(b_ == 1, z3.IntVal(2), z3.If(b_ == 3, z3.IntVal(4), z3.IntVal(-1)))))
                 e_.write_field(st_, me_, "#fits", VNum(e_.read_field(st_, me_, "#fits").e + 1))
